@@ -1,44 +1,82 @@
+mod catalog;
+mod drivers;
 mod engine;
-use engine::explore::{explore, sym, Limits, Verdict};
-use engine::sf::SF;
-use ark_ff::{Field, Zero, One};
-use ark_poly_commit::ipa_pc::SuccinctCheckPolynomial;
+mod schemes;
+use catalog::{catalogue, Tier};
+use engine::explore::{explore, install_panic_hook, run_once, Verdict};
+use serde_json::json;
 
-fn h_succinct(k: usize) -> Verdict {
-    let ch: Vec<SF> = (0..k).map(|i| sym(&format!("u{}", i))).collect();
-    let z = sym("z");
-    let sp = SuccinctCheckPolynomial(ch);
-    let co = sp.compute_coeffs();
-    let mut acc = SF::zero();
-    for c in co.iter().rev() {
-        acc = acc * z + c;
+fn tier(s: &str) -> Tier {
+    if s == "thorough" {
+        Tier::Thorough
+    } else {
+        Tier::Quick
     }
-    Verdict::check(sp.evaluate(z) == acc, "succinct", "evaluate != horner")
 }
-fn h_kzg_field(d: usize) -> Verdict {
-    use ark_poly::{univariate::DensePolynomial, DenseUVPolynomial, Polynomial};
-    let coeffs: Vec<SF> = (0..=d).map(|i| sym(&format!("c{}", i))).collect();
-    let z = sym("z");
-    let beta = SF::from(0x1234_5678_9abc_def1u64) * SF::from(0xfeed_beef_dead_cafeu64);
-    let p = DensePolynomial::from_coefficients_vec(coeffs.clone());
-    let divisor = DensePolynomial::from_coefficients_vec(vec![-z, SF::one()]);
-    let w = &p / &divisor;
-    let v = p.evaluate(&z);
-    let lhs = p.evaluate(&beta) - v;
-    let rhs = w.evaluate(&beta) * (beta - z);
-    let mut acc = SF::zero();
-    for c in coeffs.iter().rev() {
-        acc = acc * z + c;
-    }
-    Verdict::check(lhs == rhs && v == acc, "kzgfield", "")
-}
+
 fn main() {
-    let which = std::env::args().nth(1).unwrap_or("succ".into());
-    let lim = Limits::quick();
-    let r = match which.as_str() {
-        "succ" => explore(&|| h_succinct(5), 1, &lim),
-        _ => explore(&|| h_kzg_field(3), 1, &lim),
-    };
-    println!("{}", serde_json::to_string_pretty(&r.to_json()).unwrap());
-    let _ = SF::ONE;
+    let args: Vec<String> = std::env::args().collect();
+    if args.len() < 4 {
+        eprintln!("usage: sympc list <PROP> <tier> | run <PROP> <tier> <id> <seed> | replay <PROP> <tier> <id> <seed> <inputs.json>");
+        std::process::exit(2);
+    }
+    install_panic_hook();
+    let (cmd, prop, t) = (args[1].as_str(), args[2].as_str(), tier(&args[3]));
+    let seed: u64 = args.get(5).and_then(|s| s.parse().ok()).unwrap_or(1);
+    let cat = catalogue(prop, t, seed);
+    match cmd {
+        "list" => {
+            for e in &cat {
+                println!("{}", e.id);
+            }
+        }
+        "run" => {
+            let id = &args[4];
+            let ent = match cat.iter().find(|e| &e.id == id) {
+                Some(e) => e,
+                None => {
+                    eprintln!("unknown config {}", id);
+                    std::process::exit(2);
+                }
+            };
+            let mut lim = ent.lim.clone();
+            if let Ok(w) = std::env::var("SYMPC_WALL_S") {
+                if let Ok(w) = w.parse::<f64>() {
+                    lim.wall_s = w;
+                }
+            }
+            let rep = explore(&*ent.run, seed, &lim);
+            let mut j = rep.to_json();
+            j["config"] = json!(ent.id);
+            j["symbolic"] = json!(ent.symbolic);
+            j["bounds"] = json!(ent.bounds);
+            j["functions"] = json!(ent.funcs);
+            j["twin"] = json!(ent.twin);
+            j["seed"] = json!(seed);
+            println!("RESULT {}", serde_json::to_string(&j).unwrap());
+        }
+        "replay" => {
+            let id = &args[4];
+            let ent = cat.iter().find(|e| &e.id == id).expect("unknown config");
+            let txt = std::fs::read_to_string(&args[6]).expect("inputs file");
+            let v: serde_json::Value = serde_json::from_str(&txt).expect("json");
+            let inputs: Vec<ark_bls12_381::Fr> = v["inputs"]
+                .as_array()
+                .expect("inputs")
+                .iter()
+                .map(|s| {
+                    let b: num_bigint::BigUint = s.as_str().unwrap().parse().unwrap();
+                    ark_bls12_381::Fr::from(b)
+                })
+                .collect();
+            let out = run_once(&*ent.run, inputs, seed);
+            let (verdict, key) = match &out.verdict {
+                Verdict::Hold => ("holds", String::new()),
+                Verdict::Discard(w) => ("discarded", w.clone()),
+                Verdict::Violation { key, .. } => ("violation", key.clone()),
+            };
+            println!("REPLAY {}", json!({"verdict": verdict, "key": key, "branches": out.path.len()}));
+        }
+        _ => std::process::exit(2),
+    }
 }
